@@ -290,37 +290,40 @@ func (w *world) execOp(ti, oi int, op *proto.Op, st *opState) {
 			return
 		}
 		o := op.HLSL
-		var opts *hlsl.Options
+		// The caller's options object. With ReuseOptions the caller keeps ONE
+		// *hlsl.Options for all its calls and edits it in between (same
+		// pointer, new field values and tables).
+		fresh := &hlsl.Options{
+			ShaderModel:                   hlsl.ShaderModel(o.ShaderModel),
+			BindingMap:                    map[hlsl.ResourceBinding]hlsl.BindTarget{},
+			FakeMissingBindings:           o.FakeMissingBindings,
+			ZeroInitializeWorkgroupMemory: o.ZeroInitWorkgroup,
+			RestrictIndexing:              o.RestrictIndexing,
+			ForceLoopBounding:             o.ForceLoopBounding,
+			EntryPoint:                    o.EntryPoint,
+			SamplerHeapTargets: hlsl.SamplerHeapBindTargets{
+				StandardSamplers:   hlsl.BindTarget{Space: 0, Register: 0},
+				ComparisonSamplers: hlsl.BindTarget{Space: 1, Register: 0},
+			},
+		}
+		for _, b := range o.BindingMap {
+			fresh.BindingMap[hlsl.ResourceBinding{Group: b.Group, Binding: b.Binding.Binding}] = hlsl.BindTarget{Space: uint8(b.Space), Register: b.Target}
+		}
+		if o.SpecialConstants {
+			fresh.SpecialConstantsBinding = &hlsl.BindTarget{Space: 7, Register: 3}
+		}
+		if o.SamplerBufferMap {
+			fresh.SamplerBufferBindingMap = map[uint32]hlsl.BindTarget{0: {Space: 4, Register: 0}, 1: {Space: 4, Register: 1}, 2: {Space: 4, Register: 2}}
+		}
+		if o.DynOffsets {
+			fresh.DynamicStorageBufferOffsetsTargets = map[uint32]hlsl.OffsetsBindTarget{0: {Space: 5, Register: 0, Size: 2}, 1: {Space: 5, Register: 1, Size: 1}}
+		}
+		opts := fresh
 		if prev, ok := w.hlslPrev[ti]; ok && o.ReuseOptions {
 			opts = prev.(*hlsl.Options)
-		} else {
-			opts = &hlsl.Options{
-				ShaderModel:                   hlsl.ShaderModel(o.ShaderModel),
-				BindingMap:                    map[hlsl.ResourceBinding]hlsl.BindTarget{},
-				FakeMissingBindings:           o.FakeMissingBindings,
-				ZeroInitializeWorkgroupMemory: o.ZeroInitWorkgroup,
-				RestrictIndexing:              o.RestrictIndexing,
-				ForceLoopBounding:             o.ForceLoopBounding,
-				EntryPoint:                    o.EntryPoint,
-				SamplerHeapTargets: hlsl.SamplerHeapBindTargets{
-					StandardSamplers:   hlsl.BindTarget{Space: 0, Register: 0},
-					ComparisonSamplers: hlsl.BindTarget{Space: 1, Register: 0},
-				},
-			}
-			for _, b := range o.BindingMap {
-				opts.BindingMap[hlsl.ResourceBinding{Group: b.Group, Binding: b.Binding.Binding}] = hlsl.BindTarget{Space: uint8(b.Space), Register: b.Target}
-			}
-			if o.SpecialConstants {
-				opts.SpecialConstantsBinding = &hlsl.BindTarget{Space: 7, Register: 3}
-			}
-			if o.SamplerBufferMap {
-				opts.SamplerBufferBindingMap = map[uint32]hlsl.BindTarget{0: {Space: 4, Register: 0}, 1: {Space: 4, Register: 1}, 2: {Space: 4, Register: 2}}
-			}
-			if o.DynOffsets {
-				opts.DynamicStorageBufferOffsetsTargets = map[uint32]hlsl.OffsetsBindTarget{0: {Space: 5, Register: 0, Size: 2}, 1: {Space: 5, Register: 1, Size: 1}}
-			}
-			w.hlslPrev[ti] = opts
+			*opts = *fresh
 		}
+		w.hlslPrev[ti] = opts
 		before := fp.Hash(opts)
 		text, info, err := hlsl.Compile(m, opts)
 		optCheck("*hlsl.Options", opts, before)
